@@ -69,8 +69,27 @@ impl Decoder for RawDecoder {
     type Item = Vec<u8>;
     type Error = Status;
     fn decode(&mut self, src: &mut DecodeBuf<'_>) -> Result<Option<Vec<u8>>, Status> {
-        let mut v = vec![0u8; src.remaining()];
-        src.copy_to_slice(&mut v);
+        // the three ways a decoder can take its bytes out of a `Buf`, rotated by message length so
+        // that every section exercises all of them
+        let n = src.remaining();
+        let v = match n % 3 {
+            0 => {
+                let mut v = vec![0u8; n];
+                src.copy_to_slice(&mut v);
+                v
+            }
+            1 => src.copy_to_bytes(n).to_vec(),
+            _ => {
+                let mut v = Vec::with_capacity(n);
+                while src.has_remaining() {
+                    let c = src.chunk();
+                    let take = c.len().min(2);
+                    v.extend_from_slice(&c[..take]);
+                    src.advance(take);
+                }
+                v
+            }
+        };
         Ok(Some(v))
     }
     fn buffer_settings(&self) -> BufferSettings {
